@@ -39,14 +39,14 @@ type c13Input struct {
 	entry  string // decoder entry point (violation key component)
 	class  string // input class (violation key component)
 	desc   string
-	served int // bytes offered to the decoder
-	cap    int // size cap passed to the API (0 = none)
-	frame  int // payload bytes per frame when the input was cut into equal frames (0 = n/a)
+	served int  // bytes offered to the decoder
+	cap    int  // size cap passed to the API (0 = none)
+	frame  int  // payload bytes per frame when the input was cut into equal frames (0 = n/a)
 	over   bool // the input's strings exceed the cap: a capped reader must fail
 	run    func() (consumed int, err error)
 }
 
-var c13Ints = []int64{math.MinInt64, -1 << 31 - 1, -1 << 31, -1, 0, 1, 255, 4095, 4096, 4097, 1<<20 - 1, 1 << 20, 1<<20 + 1, 1<<31 - 1, 1 << 31, 1<<32 - 1, math.MaxInt64}
+var c13Ints = []int64{math.MinInt64, -1<<31 - 1, -1 << 31, -1, 0, 1, 255, 4095, 4096, 4097, 1<<20 - 1, 1 << 20, 1<<20 + 1, 1<<31 - 1, 1 << 31, 1<<32 - 1, math.MaxInt64}
 
 func intClass(v int64) string {
 	switch {
@@ -803,7 +803,7 @@ func tail(s string) string {
 func C13Plan() *vlib.Plan {
 	p := &vlib.Plan{
 		Property: "C13", Level: "exploration",
-		Rule: "Bounded structure-aware exhaustion of every decoder entry point: (stream) 5 receive entry points x {plain, AES-GCM} x all 1-byte strings, all strings of 2-3 (thorough 4) bytes over a 16-value header alphabet, end flag x length boundary product x {no, partial, full body}, runs of 10 / 10^3 / 2*10^5 empty and 1-byte partial frames; (message) 11 typed/ClassAd readers + GetBytes(n) for 17 boundary n, x {one frame, 1-byte frames, missing end} x both modes x payloads = boundary integer (17 values from MinInt64 to MaxInt64) followed by 9 string shapes (empty, unterminated, marker, cap-1/cap/cap+1/10xcap, 100 KB), every truncation of a valid ad, count field over the catalogue, secret marker followed by 10 B..900 KB, 20000 tiny expressions; (handshake) real ClientHandshake / ServerHandshake against scripted peers that put every catalogue integer into every length/count/status field they read (server ad, method reply, 5 exchangeKey fields, post-auth ad, SSL message length, FS result, 6 TOKEN step-2 fields; client ad, command, bitmask, CLAIMTOBE, 3 TOKEN step-1 fields, resumption request) and 4 KB..900 KB oversize ads; (text) all strings <= 5 (thorough 6) over 12-symbol alphabets through 8 parsers, crypto-state blob length fields. Oracle per input: no panic (recovered in the worker), no abort (out-of-memory under ulimit -v 6 GiB, stack overflow under a 16 MiB stack, attributed by the parent to the input in flight), no spin (15 s without progress), TotalAlloc <= 256 x (bytes served + cap) + 4 MiB, capped readers consume <= cap + one frame. Non-trivial = the decoder was invoked on the input (distinct inputs by construction).",
+		Rule:   "Bounded structure-aware exhaustion of every decoder entry point: (stream) 5 receive entry points x {plain, AES-GCM} x all 1-byte strings, all strings of 2-3 (thorough 4) bytes over a 16-value header alphabet, end flag x length boundary product x {no, partial, full body}, runs of 10 / 10^3 / 2*10^5 empty and 1-byte partial frames; (message) 11 typed/ClassAd readers + GetBytes(n) for 17 boundary n, x {one frame, 1-byte frames, missing end} x both modes x payloads = boundary integer (17 values from MinInt64 to MaxInt64) followed by 9 string shapes (empty, unterminated, marker, cap-1/cap/cap+1/10xcap, 100 KB), every truncation of a valid ad, count field over the catalogue, secret marker followed by 10 B..900 KB, 20000 tiny expressions; (handshake) real ClientHandshake / ServerHandshake against scripted peers that put every catalogue integer into every length/count/status field they read (server ad, method reply, 5 exchangeKey fields, post-auth ad, SSL message length, FS result, 6 TOKEN step-2 fields; client ad, command, bitmask, CLAIMTOBE, 3 TOKEN step-1 fields, resumption request) and 4 KB..900 KB oversize ads; (text) all strings <= 5 (thorough 6) over 12-symbol alphabets through 8 parsers, crypto-state blob length fields. Oracle per input: no panic (recovered in the worker), no abort (out-of-memory under ulimit -v 6 GiB, stack overflow under a 16 MiB stack, attributed by the parent to the input in flight), no spin (15 s without progress), TotalAlloc <= 256 x (bytes served + cap) + 4 MiB, capped readers consume <= cap + one frame. Non-trivial = the decoder was invoked on the input (distinct inputs by construction).",
 		Assume: []string{"inputs outside the generated grammar are not covered (the property's fuzzing wording is claimed in this bounded form)", "memory judged by Go's TotalAlloc; SCITOKENS/KERBEROS readers not reached"},
 	}
 	p.Gen = func(tier string, yield func(vlib.Case)) {
